@@ -777,7 +777,8 @@ pub fn lookup_cost(p: &Program, r: &RunResult, checked: &mut usize, max_seen: &m
     for (k, present, cmps) in &r.quiescent.lookup_cost {
         let bin = (p.cfg.hash.hash(*k) as usize) & (rep.table_len - 1);
         let Some(&(kind, size)) = rep.bins.get(bin) else { continue };
-        if kind != 2 || size == 0 {
+        // any bin of 8 or more entries in a table of at least 64 bins, whatever it is organised as
+        if !(kind == 1 || kind == 2) || size < 8 || rep.table_len < 64 {
             continue;
         }
         *checked += 1;
@@ -786,7 +787,7 @@ pub fn lookup_cost(p: &Program, r: &RunResult, checked: &mut usize, max_seen: &m
         if *cmps > bound {
             out.push(v(
                 "lookup-too-expensive",
-                format!("looking up {} key {} in a tree bin of {} entries used {} key comparisons (bound 4*log2(n+1)+2 = {})", if *present { "present" } else { "absent" }, k, size, cmps, bound),
+                format!("looking up {} key {} in a {} bin of {} entries used {} key comparisons (bound 4*log2(n+1)+2 = {})", if *present { "present" } else { "absent" }, k, if kind == 2 { "tree" } else { "list" }, size, cmps, bound),
             ));
         }
     }
